@@ -247,6 +247,10 @@ def window_patterns(rep, idx):
         if x[0] == 'bin' and x[1] == '>>':
             shifts.add(x[3])
             bases.add(x[2])
+        # normal form of a right shift: x // 2**k
+        if x[0] == 'bin' and x[1] == '//' and x[3][0] == 'bin' and x[3][1] == '**' and x[3][2] == ('const', 2):
+            shifts.add(x[3][3])
+            bases.add(x[2])
     subtr = set()
     for cond, gen, ln in c.t.conds:
         for x in ir.walk(c.norm(cond)):
